@@ -5,7 +5,7 @@ from ..core import f2b, b2f, run_harness, run_driver
 from .. import samples as S, sample_checks as SC, graphs, gen, kin
 
 MODULE = "Momtrop.Props.C03Mono"
-THEOREMS = ["Momtrop.C01.det_momentum_map", "Momtrop.C01.inverse_cdf_law", "Momtrop.C01.xi_power_law", "Momtrop.C01.reduction", "Momtrop.C01.chain_law", "Momtrop.C01.dens_closed", "Momtrop.C01.abel_tropical", "Momtrop.C01.dens_tropical", "Momtrop.C01.sector_density_times_prob", "Momtrop.C01.sector_expectation", "Momtrop.C01.tropical_sampling", "Momtrop.C01.consistent_along", "Momtrop.C01.tropical_sampling_table", "Momtrop.C01.spanT_mono", "Momtrop.C01.removalFacts_of_loops"]
+THEOREMS = ["Momtrop.C01.det_momentum_map", "Momtrop.C01.inverse_cdf_law", "Momtrop.C01.xi_power_law", "Momtrop.C01.reduction", "Momtrop.C01.chain_law", "Momtrop.C01.dens_closed", "Momtrop.C01.abel_tropical", "Momtrop.C01.dens_tropical", "Momtrop.C01.sector_density_times_prob", "Momtrop.C01.sector_expectation", "Momtrop.C01.tropical_sampling", "Momtrop.C01.consistent_along", "Momtrop.C01.tropical_sampling_table", "Momtrop.C01.spanT_mono", "Momtrop.C01.removalFacts_of_loops", "Momtrop.loopNumber_erase", "Momtrop.C01.loopsT_step", "Momtrop.C01.removalFacts_fromGraph", "Momtrop.C01.tropical_sampling_model"]
 RULE = ("(i) end-to-end correspondence of sample (all fields) on multi-loop, massive, unequal-weight, D=1..6, non-trivial-routing inputs; "
         "(ii) SUPPORTING TEST, not a proof: fixed-seed Monte Carlo means against closed forms - mean(jacobian) for the massive tadpole, "
         "equal-mass bubble at zero momentum and the two-tadpole product (two routings), and mean(jacobian * g) with "
@@ -43,6 +43,10 @@ def run(ctx):
     ss += S.generate(ctx, 2 if ctx.quick else 6, 6, max_e=8, max_loops=7, routings_per_graph=2, names=["banana8"], kinds=("uniform", "corner"))
     # exact coincidences among the propagator powers (repeated at non-adjacent positions; equal to the overall dod)
     ss += S.generate(ctx, 0, 2, routings_per_graph=1, kinds=("uniform",), special=("repeated_weights", "weights_equal_dod") * (3 if ctx.quick else 10))
+    # as many edges as loops (bouquets of self-loops): the signature is a square matrix, and non-symmetric bases must be read edge by edge
+    ss += S.generate(ctx, 4 if ctx.quick else 16, 2, max_e=4, max_loops=3, routings_per_graph=4, names=["tadpole_pair", "rose3"], mass_mode="all")
+    # vacuum graphs with some but not all edges massive
+    ss += S.generate(ctx, 0, 3, routings_per_graph=1, kinds=("uniform",), special=("vacuum_mixed",) * (4 if ctx.quick else 16))
     # raised propagators: Gamma(dod) and prod Gamma(w) beyond 1e100, the normalisation itself an ordinary number
     from .. import oracle as O_
     big = []
